@@ -1,0 +1,46 @@
+package proxy
+
+import (
+	"context"
+	"sync"
+)
+
+// wsSessions counts the open websocket sessions. A websocket session
+// runs on a hijacked connection which the http.Server no longer knows
+// about: its Shutdown neither waits for the session nor closes it.
+// Shutdown therefore waits for the open sessions itself.
+var wsSessions sessionCounter
+
+type sessionCounter struct {
+	mu   sync.Mutex
+	n    int
+	idle chan struct{} // closed when n drops to zero. nil if nobody waits.
+}
+
+func (c *sessionCounter) add(delta int) {
+	c.mu.Lock()
+	c.n += delta
+	if c.n == 0 && c.idle != nil {
+		close(c.idle)
+		c.idle = nil
+	}
+	c.mu.Unlock()
+}
+
+// wait returns when no session is open or when ctx is done.
+func (c *sessionCounter) wait(ctx context.Context) {
+	c.mu.Lock()
+	if c.n == 0 {
+		c.mu.Unlock()
+		return
+	}
+	if c.idle == nil {
+		c.idle = make(chan struct{})
+	}
+	idle := c.idle
+	c.mu.Unlock()
+	select {
+	case <-idle:
+	case <-ctx.Done():
+	}
+}
